@@ -37,6 +37,7 @@ type symv struct {
 	// conservative interval for sInt (saturating at ivMin/ivMax = unknown)
 	lo, hi int64
 	opaque bool // produced by an imprecise model (must not decide anything)
+	tbl    *table // finite-domain decision table (see table.go), nil otherwise
 }
 
 func (x *symv) String() string { return x.t }
